@@ -234,17 +234,54 @@ func sleepMs(n int) { time.Sleep(time.Duration(n) * time.Millisecond) }
 // JSON carry them); fractional values stay float64. The reference model keeps
 // working on the float64 image, which denotes the same numbers.
 func nativize(c *fw.Case, rows []any, col string) {
-	kind := c.Intn(4)
+	kind := c.Intn(10)
 	for _, r := range rows {
 		m, ok := r.(map[string]any)
 		if !ok {
 			continue
 		}
 		f, ok := m[col].(float64)
+		if ok && kind == 9 && float64(float32(f)) == f {
+			m[col] = float32(f) // exactly representable fractions and integers
+			continue
+		}
 		if !ok || f != float64(int64(f)) || f > 1e15 || f < -1e15 {
 			continue
 		}
 		switch kind {
+		case 4:
+			if f >= -128 && f <= 127 {
+				m[col] = int8(f)
+			} else {
+				m[col] = int64(f)
+			}
+		case 5:
+			if f >= -32768 && f <= 32767 {
+				m[col] = int16(f)
+			} else {
+				m[col] = int64(f)
+			}
+		case 6:
+			if f >= 0 && f <= 255 {
+				m[col] = uint8(f)
+			} else {
+				m[col] = int16(f)
+				if f < -32768 || f > 32767 {
+					m[col] = int(f)
+				}
+			}
+		case 7:
+			if f >= 0 && f <= 65535 {
+				m[col] = uint16(f)
+			} else {
+				m[col] = int(f)
+			}
+		case 8:
+			if f >= 0 && f <= 4294967295 {
+				m[col] = uint32(f)
+			} else {
+				m[col] = int64(f)
+			}
 		case 0:
 			m[col] = int(f)
 		case 1:
